@@ -23,8 +23,16 @@ POOL = ["lambda_0", "lambda_1", "__default_1_x", "record_update_temp", "feed_glo
 SHADOW = {"Template": '"f"', "Lits": "{1}", "Ops": '{"+"}', "Helpers": "{}", "Prods": '{"let", "letsh", "asg", "now", "if"}'}
 JOBS = {"quick": [("f4", {"Template": '"f"', "Budget": 4, "Lits": "{1, 2}", "Ops": '{"+", "*"}'}),
                   # lets that bind a name of an enclosing scope again, in nested expression positions
-                  ("shadow5", dict(SHADOW, Budget=5))],
-        "thorough": [("shadow6", dict(SHADOW, Budget=6)), ("f5", {"Template": '"f"', "Budget": 5, "Lits": "{1}", "Ops": '{"+"}'}),
+                  ("shadow5", dict(SHADOW, Budget=5)),
+                  # records of Lang.tla (field names are renamed too; initialisers assign a shared variable), closures
+                  # handed to functions
+                  ("rec5", dict(dict(langpipe.EXT_CORE["quick"])["rec6"], Budget=5)),
+                  ("recclo7", dict(dict(langpipe.EXT_CORE["quick"])["recclo8"], Budget=7)),
+                  ("hof6", dict(dict(langpipe.EXT_CORE["quick"])["hof8"], Budget=6))],
+        "thorough": [("rec6", dict(langpipe.EXT_CORE["quick"])["rec6"]), ("recclo8", dict(langpipe.EXT_CORE["quick"])["recclo8"]),
+                     ("hof7", dict(dict(langpipe.EXT_CORE["quick"])["hof8"], Budget=7)),
+                     ("x_arr5", dict(langpipe.EXT_X["quick"])["x_arr5"]),
+                     ("shadow6", dict(SHADOW, Budget=6)), ("f5", {"Template": '"f"', "Budget": 5, "Lits": "{1}", "Ops": '{"+"}'}),
                      ("dsp4", {"Template": '"dsp"', "UseInput": "TRUE", "Budget": 4})]}
 
 
@@ -57,7 +65,9 @@ def record_table():
     """template -> [(variant name, source)]; the first variant is the reference"""
     names = [("a", "b"), ("start", "end"), ("zeta", "alpha"), ("lo", "hi"), ("b", "a")]
     groups = {}
-    for tname in ("assign", "update", "param", "alias", "nested"):
+    bump = "  let v = 1\n  let bump = |y| { v = v * 10 + y  v }\n"
+    for tname in ("assign", "update", "param", "alias", "nested", "effects", "effects_update", "effects_pipe",
+                  "pattern", "pattern_swapped", "pattern_fn", "pattern_global"):
         vs = []
         for f1, f2 in names:
             anns = {"none": "", "same": f":{{{f1}:float, {f2}:float}}", "swapped": f":{{{f2}:float, {f1}:float}}"}
@@ -73,6 +83,27 @@ def record_table():
                     if aname == "none":
                         continue
                     src = f"type alias R = {ann[1:]}\nfn dsp(){{\n  let r:R = {lit}\n  r.{f1} = 5.0\n  r.{f1} * 100 + r.{f2}\n}}\n"
+                # initialisers with side effects run in the order they are written, whatever the names of the fields
+                elif tname == "effects":
+                    src = f"fn dsp(){{\n{bump}  let r{ann} = {{{f1} = bump(1), {f2} = bump(2)}}\n  r.{f1} * 1000 + r.{f2} + v * 100000\n}}\n"
+                elif tname == "effects_update":
+                    src = (f"fn dsp(){{\n{bump}  let r{ann} = {lit}\n  let s = {{r <- {f1} = bump(3), {f2} = bump(4)}}\n"
+                           f"  s.{f1} * 1000 + s.{f2} + r.{f1} * 100000\n}}\n")
+                elif tname == "effects_pipe":
+                    if aname != "none":
+                        continue
+                    src = (f"fn g({f1}, {f2}){{ {f1} * 1000 + {f2} }}\nfn dsp(){{\n{bump}  {{{f1} = bump(1), {f2} = bump(2)}} |> g\n}}\n")
+                # destructuring reads every field by its name
+                elif tname == "pattern":
+                    src = f"fn dsp(){{\n  let r{ann} = {{{f1} = now + 1.0, {f2} = 10.0}}\n  let {{{f1} = x, {f2} = y}} = r\n  x * 100 + y\n}}\n"
+                elif tname == "pattern_swapped":
+                    src = f"fn dsp(){{\n  let r{ann} = {{{f1} = now + 1.0, {f2} = 10.0}}\n  let {{{f2} = y, {f1} = x}} = r\n  x * 100 + y\n}}\n"
+                elif tname == "pattern_fn":
+                    ret = f" -> {ann[1:]}" if ann else ""
+                    src = (f"fn mk(k){ret}{{ {{{f1} = k + 1.0, {f2} = 10.0}} }}\nfn dsp(){{\n  let {{{f1} = x, {f2} = y}} = mk(now)\n"
+                           f"  x * 100 + y\n}}\n")
+                elif tname == "pattern_global":
+                    src = f"let value{ann} = {{{f1} = 3.0, {f2} = 10.0}}\nlet {{{f1} = x, {f2} = y}} = value\nfn dsp(){{\n  x * 100 + y + now\n}}\n"
                 else:
                     src = (f"fn dsp(){{\n  let r{ann} = {lit}\n  let q = {{inner = r, {f2} = 2.0}}\n  r.{f2} = 7.0\n"
                            f"  q.inner.{f1} * 100 + q.inner.{f2} + q.{f2} * 1000 + r.{f2} * 10000\n}}\n")
